@@ -87,13 +87,85 @@ def prepare(uni, op):
                 uni.codecs[cid] = c
             return c.decode(data)
         return thunk, unchanged
+    if k == "codec_cmp":
+        return prepare_codec_cmp(uni, op)
     raise ValueError(k)
+
+
+def norm_doc(x, strip_none=False):
+    import datetime
+    if isinstance(x, (datetime.date, datetime.time)):
+        return x.isoformat()
+    if isinstance(x, dict):
+        return {str(k): norm_doc(v, strip_none) for k, v in x.items()
+                if not (strip_none and v is None)}
+    if isinstance(x, (list, tuple)):
+        return [norm_doc(v, strip_none) for v in x]
+    if isinstance(x, (bytes, bytearray)):
+        return bytes(x).hex()
+    return x
+
+
+def parse_encoded(fmt, data):
+    if fmt == "basic":
+        return data
+    if fmt in ("json", "orjson"):
+        import json as _json
+        return _json.loads(data)
+    if fmt == "msgpack":
+        import msgpack
+        return msgpack.unpackb(data, raw=False)
+    if fmt == "yaml":
+        import yaml
+        return yaml.safe_load(data)
+    if fmt == "toml":
+        import tomllib
+        return tomllib.loads(data)
+    raise ValueError(fmt)
+
+
+def prepare_codec_cmp(uni, op):
+    """C13 clause 2: the same default_dialect means the same logical document in
+    every format.  Returns both sides; the comparison is done by the oracle."""
+    from mashumaro.codecs import basic as B
+    mod = uni.mod
+    fmt = op["fmt"]
+    enc_cls, dec_cls, _, _ = _codec_classes(fmt)
+    shape = uni.typ(op["shape"])
+    dd = getattr(mod, op["dd"]) if op.get("dd") else None
+
+    def side(fn):
+        try:
+            return ["ok", fn()]
+        except Exception as e:  # noqa
+            return ["exc", type(e).__name__]
+
+    if op["dir"] == "enc":
+        obj = uni.value(op["val"])
+        before = U.canon(obj)
+
+        def thunk():
+            a = side(lambda: norm_doc(B.BasicEncoder(shape, default_dialect=dd).encode(obj),
+                                      strip_none=(fmt == "toml")))
+            b = side(lambda: norm_doc(parse_encoded(
+                fmt, enc_cls(shape, default_dialect=dd).encode(obj))))
+            return {"basic": a, "fmt": b}
+        return thunk, (lambda: U.same(U.canon(obj), before))
+    data = U.encode_input("decode_" + fmt, op["inp"])
+    doc = copy.deepcopy(op["inp"])
+
+    def thunk():
+        a = side(lambda: U.canon(B.BasicDecoder(shape, default_dialect=dd).decode(doc)))
+        b = side(lambda: U.canon(dec_cls(shape, default_dialect=dd).decode(data)))
+        return {"basic": a, "fmt": b}
+    return thunk, (lambda: True)
 
 
 def exec_single(uni, op, tr):
     thunk, unchanged = prepare(uni, op)
     uni.take_trace()
     status, payload = T.run_traced(thunk, tr)
+    uni.last_raw = payload if status == "ok" else None
     hooks = uni.take_trace()
     ok = True
     try:
@@ -175,6 +247,7 @@ class Execution:
         self.switch_logs = {}
         self.sut = None
         self.outcomes = []
+        self.op_steps = {}
 
     # -- reference -------------------------------------------------------
     def reference(self, nchunks, op):
@@ -186,6 +259,7 @@ class Execution:
         if td:
             core = dict(core)
             core.pop("dialect", None)
+            self.stats["twin_refs"] = self.stats.get("twin_refs", 0) + 1
         uni = U.Universe(self.spec, "ref", upto_chunks=nchunks, twin_dialect=td)
         try:
             tr = T.OpTrace(budget_steps=self.step_budget, budget_depth=self.depth_budget)
@@ -218,6 +292,7 @@ class Execution:
                               "diff_at": first_diff(out, ref), "faulted": False}
             return False
         if self.extra_oracle:
+            self.last_raw = getattr(self.sut, "last_raw", None)
             v = self.extra_oracle(self, idx, op, out)
             if v:
                 v.update({"op_index": idx, "sub": sub, "op": op, "got": out})
@@ -230,10 +305,12 @@ class Execution:
         if self.sut.nchunks >= len(self.spec["chunks"]):
             return False
         defined = self.sut.defined
-        if op["k"] == "call":
+        if op["k"] in ("call", "agree"):
             names = [op["cls"]]
-        else:
+        elif "shape" in op:
             names = list(self.fam.type_refs(op["shape"]))
+        else:
+            names = []
         for n in names:
             if self.fam.unresolved(n, defined):
                 return True
@@ -259,6 +336,7 @@ class Execution:
                                abort_at=op.get("abort_at"))
                 out = exec_single(self.sut, op, tr)
                 self.account(tr)
+                self.op_steps[idx] = tr.steps
                 faulted = False
                 if op.get("abort_at"):
                     if tr.abort_site is not None:
